@@ -77,9 +77,51 @@ func genMerge(repo string) {
 	if !foundJ || !foundF {
 		fail("third_result.go: JudgeShouldInsertGlobalInfo / FindThirdGlobalGInfo not found")
 	}
+	// the order in which the files are visited: the top-level statements of the two functions that merge
+	// per-file tables into workspace tables, reduced to "range <X>", "<slice> = append(<slice>, <key>)" for the
+	// body of a collecting loop, and "sort.Strings(<slice>)"
+	visits := func(file, fn string) []string {
+		pf, err := parser.ParseFile(fset, filepath.Join(repo, file), nil, 0)
+		if err != nil {
+			fail("parse %s: %v", file, err)
+		}
+		var out []string
+		found := false
+		for _, d := range pf.Decls {
+			fd, ok := d.(*ast.FuncDecl)
+			if !ok || fd.Body == nil || fd.Name.Name != fn {
+				continue
+			}
+			found = true
+			for _, st := range fd.Body.List {
+				switch x := st.(type) {
+				case *ast.RangeStmt:
+					t := "range " + src(x.X)
+					if len(x.Body.List) == 1 {
+						if as, ok := x.Body.List[0].(*ast.AssignStmt); ok && strings.Contains(src(as), "append(") {
+							t += " { " + src(as) + " }"
+						}
+					}
+					out = append(out, t)
+				case *ast.ExprStmt:
+					if strings.HasPrefix(src(x.X), "sort.") {
+						out = append(out, src(x.X))
+					}
+				}
+			}
+		}
+		if !found {
+			fail("%s: %s not found", file, fn)
+		}
+		return out
+	}
+	globalVisits := visits("langserver/check/check_third_file.go", "generateAllGlobalMaps")
+	typeVisits := visits("langserver/check/check_all.go", "rebuidCreateTypeMap")
 	var b strings.Builder
 	b.WriteString("namespace LuaHelper.Gen\n\n/-- the if statements of the candidate loop of JudgeShouldInsertGlobalInfo: condition => action -/\n")
 	b.WriteString("def mergeConds : List String := " + leanStrList(conds) + "\n\n")
-	fmt.Fprintf(&b, "/-- FindThirdGlobalGInfo scans the candidate list from its last element downwards -/\ndef findScanBackward : Bool := %v\n\nend LuaHelper.Gen\n", backward)
+	fmt.Fprintf(&b, "/-- FindThirdGlobalGInfo scans the candidate list from its last element downwards -/\ndef findScanBackward : Bool := %v\n\n", backward)
+	b.WriteString("/-- generateAllGlobalMaps: its loops over files and the sort between them -/\ndef globalVisits : List String := " + leanStrList(globalVisits) + "\n\n")
+	b.WriteString("/-- rebuidCreateTypeMap: its loops over files and the sort between them -/\ndef typeVisits : List String := " + leanStrList(typeVisits) + "\n\nend LuaHelper.Gen\n")
 	write("Merge.lean", b.String())
 }
